@@ -58,5 +58,5 @@ Lemma ob_limits_are_the_configured_ones : forall c,
   limit c PPHdr = spec_limit c 0%N /\ limit c PLTls = spec_limit c 1%N /\
   limit c PIdle = spec_limit c 2%N /\ limit c PHead = spec_limit c 3%N /\
   limit c PMPeek = spec_limit c 5%N /\ limit c PMTls = spec_limit c 6%N /\
-  limit c PUp = None /\ limit c PTunnel = None.
+  limit c PUp = None /\ limit c PTunnel = None /\ limit c PBody = None.
 Proof. intros c. repeat split; reflexivity. Qed.
